@@ -191,6 +191,7 @@ impl Merge for Rec {
         self.add_after_merge |= o.add_after_merge;
     }
 }
+impl Default for Rec { fn default() -> Rec { Rec::new() } }
 average::impl_from_par_iterator!(Rec);
 
 fn par_case<E: Est + Send>(out: &mut Out, rng: &mut Rng, pool: &rayon::ThreadPool, data: &[f64], min_len: usize, max_len: usize, by_ref: bool, trees: &mut std::collections::BTreeSet<String>)
